@@ -20,7 +20,7 @@ for p in $props; do
     [ -f "$m" ] || continue
     n=$((n+1))
     if ! git -C "$WT" apply "$m" 2>/dev/null; then echo "SELFTEST $p $(basename $m): patch does not apply"; fail=1; continue; fi
-    out=$(GOVC_REPO="$WT" GOVC_VERIF="$OUT" "$VERIF/bin/govc" check "$p" --tier quick 2>&1); rc=$?
+    out=$(GOVC_REPO="$WT" GOVC_VERIF="$OUT" "${GOVC_BIN:-$VERIF/bin/govc}" check "$p" --tier quick 2>&1); rc=$?
     if [ $rc -eq 1 ] && echo "$out" | grep -q "^VIOLATION property=$p"; then
       echo "SELFTEST $p $(basename $m): caught ($(echo "$out" | grep -c '^VIOLATION') violation lines; first: $(echo "$out" | grep '^VIOLATION' | head -1 | sed 's/.*obligation=//' | cut -c1-120))"
     else
@@ -35,7 +35,7 @@ for p in $props; do
     [ -f "$m" ] || continue
     n=$((n+1))
     if ! git -C "$WT" apply "$m" 2>/dev/null; then echo "SELFTEST $p benign $(basename $m): patch does not apply"; fail=1; continue; fi
-    out=$(GOVC_REPO="$WT" GOVC_VERIF="$OUT" "$VERIF/bin/govc" check "$p" --tier quick 2>&1); rc=$?
+    out=$(GOVC_REPO="$WT" GOVC_VERIF="$OUT" "${GOVC_BIN:-$VERIF/bin/govc}" check "$p" --tier quick 2>&1); rc=$?
     if [ $rc -eq 0 ] && ! echo "$out" | grep -q "^VIOLATION"; then
       echo "SELFTEST $p benign $(basename $m): quiet"
     else
